@@ -90,6 +90,7 @@ def run(rep: common.Report, tier: str, seed: int, replay=None) -> int:
         "(ramp*2)*P+P": lambda: (LinearRamp(tmin=0.0, tmax=1.0) * 2) * ConstantField(0.2) + ConstantField(0.1),
     }
     pk = list(param_kinds)
+    kept = []
     with tempfile.TemporaryDirectory(prefix="pyt_c14_") as td:
         for oi, ocfg in enumerate(option_grid(rng, tier)):
             kind = pk[oi % len(pk)]
@@ -157,6 +158,27 @@ def run(rep: common.Report, tier: str, seed: int, replay=None) -> int:
             rep.nontrivial(("sol", str(ocfg["terminal_psi"]), ocfg["adaptive"], scr, kind))
             if oi < 3:
                 rep.sample(case)
+            # history form (a sweep): the caller keeps the solution and changes ITS device in place before the next run;
+            # the earlier solutions must keep describing the run they came from
+            kept.append((sol, dict(case), oi))
+            if oi % 2 == 0:
+                dev.layer.london_lambda = dev.layer.london_lambda * 1.07
+            else:
+                dev.translate(dx=0.05, dy=-0.03, inplace=True)
+        for sol, case, oi in kept:
+            try:
+                again = tdgl.Solution.from_hdf5(sol.path)
+                okk = again.equals(sol) and again.device == sol.device and not same_mesh(again.device.mesh, sol.device.mesh)
+                sol.solve_step = sol.data_range[1]
+                okk = okk and (tdgl.Solution.from_hdf5(sol.path, solve_step=sol.data_range[1]).tdgl_data == sol.tdgl_data)
+                okk = okk and np.array_equal(np.asarray(again.current_density), np.asarray(sol.current_density))
+            except Exception as e:  # noqa: BLE001
+                okk = False
+                case = {**case, "error": f"{type(e).__name__}: {e}"[:120]}
+            if not okk:
+                rep.violation("an in-memory solution no longer equals its own file after the caller changed the device in place "
+                              "for later runs (the solution aliases the caller's device)", {**case, "run": oi, "later_runs": len(kept) - 1 - oi})
+                break
 
         # ---------- solutions that live in memory only (temporary output / deleted file), and copies ----------
         def same_dynamics(a, b):
